@@ -490,6 +490,13 @@ theorem ecm_select_fin_sound (chk : Bool) (curves : Nat) (h3 : n % 3 ≠ 0) :
   refine ⟨_, _, _, _, hok, fun l hl s hs => ?_⟩
   exact select_curve_fin_sound n chk _ _ _ _ hv s ((ecm_seeds_spec n curves l hl).2 s hs).1
 
+/-- `select128_sound` for the function answering `ecm128_select` in the driver -/
+theorem select128_fin_sound (a b gx gy : Fin n)
+    (hg : suyamaIsValid a b gx gy ⟨gx, gy, 1⟩) (seed : Nat) (h1 : 1 ≤ seed) (hs : seed + 1 < 2 ^ 32) :
+    select128Fin n a b gx gy seed ≠ .panic ∧
+    (∀ p, select128Fin n a b gx gy seed = .factor p → p ∣ n ∧ 1 < p ∧ p < n) :=
+  select128_sound (finCtx n) (finCtx_lawful n) a b gx gy hg seed h1 hs
+
 end
 
 /-! non-vacuity of the remaining hypotheses -/
